@@ -8,6 +8,14 @@ Binding (B3 both ways): TLC-enumerated documents are rendered to text by harness
 ends, API chosen by seed), parsed by the real tars/util/conf and queried with every getter on every path; TLC
 checks that the text is the rendering of the abstract lines and compares every answer with the reference.
 Arbitrary byte strings are run for panics.  The binding is demonstrated on every run by corrupting records.
+Second observation: after the first pass of questions the driver does to every listing / map it received what a
+caller may do to a value it owns (sort, rewrite, reuse, clear; also to the buffer it had handed to InitFromBytes)
+and asks again; Oracle_Conf!Again requires the same answers (Conf.tla, "Sessions").
+Second code area (tars/application.go): AppConf.tla is the reading table of parseServerConfig/parseClientConfig
+(field, domain, key, getter, supplied default -- a constant, the host address, or another setting as configured);
+Gen_AppConf enumerates documents in which every key is present (well-formed / malformed / empty value) or absent;
+each is given to a fresh process as its server configuration and Oracle_AppConf compares the public configuration
+structs with AppConf!Eval.
 """
 import json
 import os
@@ -113,6 +121,101 @@ def oracle(ctx, lines, name):
     return vs, r
 
 
+def generate_app(ctx, name, modeset, sparse, simulate=None):
+    kw = {}
+    if simulate:
+        kw = dict(simulate="num=%d" % simulate, depth=200, seed=ctx.seed)
+    cfg = open(os.path.join(VERIF, "spec", SPEC, "GenApp.cfg.tmpl")).read()
+    cfg = cfg.replace("@SPARSE@", "TRUE" if sparse else "FALSE").replace("@MODESET@", modeset)
+    r = tlc.run(ctx, SPEC, "Gen_AppConf", cfg="GenApp_run.cfg", workers=1 if simulate else 2, timeout=800,
+                extra_files={"GenApp_run.cfg": cfg}, name="genapp-" + name, **kw)
+    if r.errors() or (not simulate and not r.success):
+        raise Inconclusive("application document enumeration failed (%s):\n%s" % (name, "\n".join(r.out.splitlines()[-30:])))
+    docs = {}
+    for line in r.out.splitlines():
+        if line.startswith('"{'):
+            try:
+                d = json.loads(json.loads(line))
+            except ValueError:
+                continue
+            docs.setdefault(d["m"], {})[json.dumps(d["d"], sort_keys=True)] = d["d"]
+    if not docs:
+        raise Inconclusive("application document enumeration produced nothing (%s)" % name)
+    return {m: [v[k] for k in sorted(v)] for m, v in docs.items()}, r
+
+
+def app_oracle(ctx, lines, name):
+    r = tlc.run(ctx, SPEC, "Oracle_AppConf", cfg="Oracle.cfg", workers=1, timeout=900,
+                extra_files={"apprecs.ndjson": "".join(lines)}, name=name)
+    vpath = os.path.join(r.workdir, "appverdicts.ndjson")
+    if not r.success or not os.path.exists(vpath):
+        raise Inconclusive("application oracle did not complete (%s):\n%s" % (name, "\n".join(r.out.splitlines()[-40:])))
+    vs = [json.loads(l) for l in open(vpath) if l.strip()]
+    if len(vs) != len(lines) or [v["i"] for v in vs] != list(range(1, len(lines) + 1)):
+        raise Inconclusive("application oracle judged %d of %d records (%s)" % (len(vs), len(lines), name))
+    return vs, r
+
+
+def app_report(ctx, v, rec):
+    sig = v["sig"]
+    if sig.startswith("harness:"):
+        raise Inconclusive("the oracle refused an application record as malformed (%s): %s" % (sig, json.dumps(rec)[:800]))
+    if sig == "app-config:panic":
+        what = "a process given this well-formed document as its server configuration panicked while reading it: %s" % rec.get("err")
+    elif sig == "app-config:wellformed-document-not-loaded":
+        what = "a process given this well-formed document as its server configuration did not load it"
+    else:
+        what = ("the application's configuration does not represent the document: %s; expected %s, observed %s (host address %s)"
+                % (", ".join(v["fs"]), v["exp"], v["obs"], rec.get("host")))
+    ctx.violate("C17:" + sig, "%s; server configuration file %r" % (what, short(rec)), {"kind": "app", "record": rec, "verdict": v})
+
+
+def app_selftest(ctx, accepted):
+    """Corrupt recorded application observations; the oracle must flag exactly those."""
+    cases = [("original", json.loads(accepted), "")]
+
+    def variant(name, want, f):
+        c = json.loads(accepted)
+        f(c)
+        cases.append((name, c, want))
+
+    def node_from_host(c):                # what reading node_name before localip looks like
+        c["obs"]["svr.NodeName"] = c["host"]
+
+    def ctx_stale(c):
+        c["obs"]["clt.context.node_name"] = ""
+
+    def int_default(c):
+        c["obs"]["svr.AcceptTimeout"] = "501" if c["obs"]["svr.AcceptTimeout"] != "501" else "500"
+
+    def extra_adapter(c):
+        c["adapters"].append({"name": "Z.Adapter", "Obj": "", "Protocol": "", "Threads": "0"})
+
+    def other_text(c):
+        c["text"] = c["text"].replace("=", " =", 1) + " "
+
+    variant("node-name-from-host-address", "app-config:svr.NodeName:key-absent", node_from_host)
+    variant("client-context-node-name", "app-config:clt.context.node_name:key-derived", ctx_stale)
+    variant("integer-setting", None, int_default)
+    variant("adapter-not-in-document", "app-config:Adapters", extra_adapter)
+    variant("text-not-rendering", "harness:app-record-not-sane", other_text)
+    vs, _ = app_oracle(ctx, [json.dumps(c[1]) + "\n" for c in cases], "app-selftest")
+    out = {}
+    for (nm, _, want), v in zip(cases, vs):
+        ok = v["sig"] == want if want is not None else v["sig"].startswith("app-config:svr.AcceptTimeout:")
+        out[nm] = ("accepted" if want == "" else "rejected as " + v["sig"]) if ok else "UNEXPECTED sig=%r want=%r" % (v["sig"], want)
+        if not ok:
+            raise Inconclusive("binding self-test failed: application case %s judged %r, expected %r" % (nm, v["sig"], want))
+    return out
+
+
+def app_selftest_target(rec):
+    """A record in which localip is written (and is not the host address) while node_name is not."""
+    ks = {l["k"]: l["v"] for l in rec["lines"] if l["t"] == "kv"}
+    return (rec["class"] == "ok" and "node_name" not in ks and ks.get("localip") not in (None, rec["host"])
+            and "=" in rec["text"])
+
+
 WHAT = {
     "silent-partial:xml-token-error": "success returned for a document with '&', '<' or a control character inside a value or "
                                       "comment, but the rest of the document is missing (the XML tokenizer's error is discarded)",
@@ -164,9 +267,6 @@ def selftest(ctx, accepted_doc, fuzz_line):
     def drop_key(c, e):
         e["keys"] = e["keys"][1:]
 
-    def flip_class(c, e):
-        c["class"], c["q"] = "err", []
-
     def other_text(c, e):                 # the text is no longer the rendering of the lines
         c["text"] = c["text"].replace("=", " =", 1) + " "
 
@@ -174,7 +274,20 @@ def selftest(ctx, accepted_doc, fuzz_line):
     variant("string-result", "wrong-result:GetString", set_str)
     variant("line-listing", "wrong-result:GetDomainLine", drop_line)
     variant("key-listing", "wrong-result:GetDomainKey", drop_key)
+    def flip_class(c, e):
+        c["class"], c["q"], c["q2"], c["shared"] = "err", [], [], []
+
+    def again_lines(c, e):                # the second observation lists the lines in another order / other lines
+        e2 = [x for x in c["q2"] if x["p"] == e["p"]][0]
+        e2["lines"] = sorted(e2["lines"], reverse=True) if sorted(e2["lines"], reverse=True) != e2["lines"] else e2["lines"] + ["~"]
+
+    def again_map(c, e):
+        e2 = [x for x in c["q2"] if x["p"] == e["p"]][0]
+        e2["map"][0][1] += "~"
+
     variant("class-ok-to-err", "spurious-error:wellformed-document", flip_class)
+    variant("second-observation-lines", "result-aliases-configuration:GetDomainLine", again_lines)
+    variant("second-observation-map", "result-aliases-configuration:GetMap", again_map)
     variant("text-not-rendering", "harness:record-not-sane", other_text)
     if fuzz_line is not None:
         f0 = json.loads(fuzz_line)
@@ -195,18 +308,33 @@ def selftest(ctx, accepted_doc, fuzz_line):
 def replay(ctx, exe):
     rp = json.load(open(ctx.replay))["replay"]
     d = ctx.sub("replay")
+    if rp.get("kind") == "app":
+        rec = rp["record"]
+        open(os.path.join(d, "doc.ndjson"), "w").write(json.dumps({"fixed": True, "lines": rec["lines"]}) + "\n")
+        sh([exe, "app", "-in", os.path.join(d, "doc.ndjson"), "-out", os.path.join(d, "apprecs.ndjson"),
+            "-dir", os.path.join(d, "children")], timeout=300)
+        lines = open(os.path.join(d, "apprecs.ndjson")).readlines()
+        vs, r = app_oracle(ctx, lines, "replay")
+        for v, l in zip(vs, lines):
+            if v["sig"]:
+                app_report(ctx, v, json.loads(l))
+        ctx.coverage = {"states": r.distinct, "transitions": r.generated, "traces_validated_against_impl": len(lines),
+                        "samples": [{"replayed": vs}], "evaluations": len(lines), "distinct_nontrivial": len(lines),
+                        "rule": "replay of one recorded input"}
+        return
     if rp.get("kind") == "fuzz":
         open(os.path.join(d, "in.hex"), "w").write(rp["input_hex"] + "\n")
         sh([exe, "fuzz", "-hexin", os.path.join(d, "in.hex"), "-out", os.path.join(d, "recs.ndjson"),
             "-inputs", os.path.join(d, "out.hex")], timeout=120)
     else:
         rec = rp["record"]
-        open(os.path.join(d, "doc.ndjson"), "w").write(json.dumps({"fixed": True, "api": rec["api"], "lines": rec["lines"]}) + "\n")
+        open(os.path.join(d, "doc.ndjson"), "w").write(json.dumps({"fixed": True, "api": rec["api"], "mut": rec.get("mut", ""), "lines": rec["lines"]}) + "\n")
         sh([exe, "docs", "-in", os.path.join(d, "doc.ndjson"), "-out", os.path.join(d, "recs.ndjson")], timeout=120)
     lines = open(os.path.join(d, "recs.ndjson")).readlines()
     vs, r = oracle(ctx, lines, "replay")
     for v, l in zip(vs, lines):
-        report(ctx, v, json.loads(l), rp.get("input_hex"))
+        if v["sig"]:
+            report(ctx, v, json.loads(l), rp.get("input_hex"))
     ctx.coverage = {"states": r.distinct, "transitions": r.generated, "traces_validated_against_impl": len(lines),
                     "samples": [{"replayed": vs}], "evaluations": len(lines), "distinct_nontrivial": len(lines),
                     "rule": "replay of one recorded input"}
@@ -219,6 +347,10 @@ def report(ctx, v, rec, hexin=None):
     what = WHAT.get(sig)
     if what is None and sig.startswith("wrong-result:"):
         what = "%s document parsed successfully but %s differ(s) from the reference" % (v.get("cls"), ", ".join(v.get("fs") or [sig[13:]]))
+    if what is None and sig.startswith("result-aliases-configuration:"):
+        what = ("the configuration answered, the caller then changed the values it had received (%s), and the same questions "
+                "now get different answers from %s: what a getter hands out is still part of the parsed tree"
+                % (rec.get("mut"), ", ".join(v.get("fs") or [sig.split(":", 1)[1]])))
     if what is None:
         what = sig
     if rec.get("kind") == "fuzz":
@@ -241,9 +373,18 @@ def run(ctx):
         "the oracle trusts the driver only for the calls themselves: the parsed text must equal the TLA+ rendering of the abstract lines",
         "unclosed and XML-hostile documents: error, or success with the complete tree; a mismatched close accepted with "
         "nothing observably missing is recorded as an observation only",
+        "a value handed out by a getter belongs to the caller: whatever the caller does to it, the configuration answers the same "
+        "again; two callers finding each other's appended element in the spare capacity of 'their' listing is only an observation",
+        "application settings: the supplied defaults are the documented constants of tars/setting.go, the host address "
+        "(tools.GetLocalIP) for localip, and -- where the code passes another setting as the default (node_name <- localip, "
+        "client context node_name <- node_name) -- that setting as configured by the same document; log size (unit grammar), "
+        "TLS files, endpoint grammar (C18) and the per-adapter transport configuration (not reachable through the public API) "
+        "are not judged; each document is read by a fresh process through tars.ServerConfigPath / GetServerConfig / GetClientConfig",
     ]
-    exe = gobuild.build(ctx, "confdrive")
-    ctx.log("driver built")
+    # with the test-only export of patches/C17-hooks.diff in the tree the per-servant transport configuration is observed too
+    hooked = os.path.exists(os.path.join(REPO, "tars", "verif_export_conf.go"))
+    exe = gobuild.build(ctx, "confdrive", tags="verif,c17hooks" if hooked else "verif")
+    ctx.log("driver built", "(with tars.VerifServerConfs)" if hooked else "")
     if ctx.replay:
         return replay(ctx, exe)
 
@@ -256,6 +397,10 @@ def run(ctx):
 
     # ---- 2. TLC enumerates the documents
     shs = shards(ctx)
+    app_jobs = [("exhaustive", "exhaustive", False, None), ("random", "all", True, ctx.pick(150, 3000))]
+    if not ctx.quick:
+        app_jobs.append(("pairs", "pairs", False, None))
+    app_futs = [pool.submit(generate_app, ctx, *j) for j in app_jobs]
     gens = list(pool.map(lambda s: generate(ctx, s), shs))
     docs, corpus, origin = [], {}, []
     gstates = gtrans = 0
@@ -278,8 +423,44 @@ def run(ctx):
         for d in docs:
             f.write(json.dumps(d) + "\n")
 
+    # ---- 2b. documents for the application's reading (every key present / absent)
+    rnd = random.Random(ctx.seed * 104729 + 17)
+    app_docs, app_origin, app_corpus = [], [], {}
+    app_keep = {"single": None, "dep-nodename": None, "dep-set": None, "dep-adapters": None,
+                "adapter": ctx.pick(60, None), "random": ctx.pick(150, 3000), "pairs": 6000}
+    aseen = set()
+    for fu in app_futs:
+        by_mode, r = fu.result()
+        gstates += r.distinct
+        gtrans += r.generated
+        for m in sorted(by_mode):
+            ds = by_mode[m]
+            total = len(ds)
+            if app_keep.get(m) is not None and total > app_keep[m]:
+                ds = rnd.sample(ds, app_keep[m])
+            n = 0
+            for d in ds:
+                key = json.dumps(d, sort_keys=True)
+                if key in aseen:
+                    continue
+                aseen.add(key)
+                app_docs.append(d)
+                app_origin.append(m)
+                n += 1
+            app_corpus[m] = {"enumerated": total, "run": n}
+    for m in ("single", "dep-nodename", "dep-set", "dep-adapters", "adapter", "random"):
+        if not app_corpus.get(m, {}).get("run"):
+            raise Inconclusive("no application documents of class %s were enumerated" % m)
+    ctx.log("application documents", {k: v["run"] for k, v in app_corpus.items()}, "total", len(app_docs))
+    adpath, arpath = os.path.join(ddir, "appdocs.ndjson"), os.path.join(ddir, "apprecs.ndjson")
+    with open(adpath, "w") as f:
+        for d in app_docs:
+            f.write(json.dumps(d) + "\n")
+
     # ---- 3. the real package parses and answers
     rpath = os.path.join(ddir, "recs.ndjson")
+    app_fut = pool.submit(sh, [exe, "app", "-in", adpath, "-out", arpath, "-dir", os.path.join(ddir, "children"),
+                               "-seed", str(ctx.seed), "-j", "6"], timeout=1500)
     sh([exe, "docs", "-in", dpath, "-out", rpath, "-seed", str(ctx.seed)], timeout=1200)
     nfuzz = ctx.pick(20000, 200000)
     fpath, hpath = os.path.join(ddir, "fuzz.ndjson"), os.path.join(ddir, "fuzz.hex")
@@ -290,6 +471,11 @@ def run(ctx):
     ctx.log("real package driven: %d documents, %d arbitrary inputs" % (len(rec_lines), len(fuzz_lines)))
     if len(rec_lines) != len(docs) or len(fuzz_lines) != nfuzz:
         raise Inconclusive("driver wrote %d/%d records" % (len(rec_lines), len(fuzz_lines)))
+    app_fut.result()
+    app_lines = open(arpath).readlines()
+    if len(app_lines) != len(app_docs):
+        raise Inconclusive("driver wrote %d application records for %d documents" % (len(app_lines), len(app_docs)))
+    ctx.log("application driven: %d processes, one per document" % len(app_lines))
 
     # ---- 4. TLC judges every record
     chunks = []
@@ -309,6 +495,9 @@ def run(ctx):
         vs, r = oracle(ctx, [src[i] for i in idx], "oracle-%s-%d" % (kind, idx[0]))
         return kind, idx, vs, r
 
+    aper = 4000
+    app_chunks = [list(range(a, min(len(app_lines), a + aper))) for a in range(0, len(app_lines), aper)]
+    app_res = [pool.submit(app_oracle, ctx, [app_lines[i] for i in idx], "oracle-app-%d" % idx[0]) for idx in app_chunks]
     results = list(pool.map(judge, chunks))
     ctx.log("oracle done: %d chunks" % len(chunks))
     ostates = otrans = 0
@@ -355,6 +544,32 @@ def run(ctx):
                         samples.append({"kind": "rejected record", "text": short(rec), "api": rec["api"], "class": rec["class"],
                                         "verdict": v})
                     report(ctx, v, rec)
+    # ---- 4b. the application records
+    app_tally, app_by_mode, app_accepted, app_hosts = {}, {}, None, set()
+    app_nontrivial = 0
+    for idx, fu in zip(app_chunks, app_res):
+        vs, r = fu.result()
+        ostates += r.distinct
+        otrans += r.generated
+        for i, v in zip(idx, vs):
+            k = "%s/%s" % (v["impl"], "rejected" if v["sig"] else "accepted")
+            app_tally[k] = app_tally.get(k, 0) + 1
+            bm = app_by_mode.setdefault(app_origin[i], {"judged": 0, "rejected": 0})
+            bm["judged"] += 1
+            if any(l["t"] == "kv" for l in app_docs[i]):
+                app_nontrivial += 1
+            if v["sig"]:
+                bm["rejected"] += 1
+                rec = json.loads(app_lines[i])
+                if len([s_ for s_ in samples if s_.get("kind") == "rejected application record"]) < 2:
+                    samples.append({"kind": "rejected application record", "text": short(rec), "verdict": v})
+                app_report(ctx, v, rec)
+            elif app_accepted is None or app_origin[i] == "dep-nodename":
+                rec = json.loads(app_lines[i])
+                app_hosts.add(rec.get("host"))
+                if app_selftest_target(rec) and (app_accepted is None or app_origin[i] == "dep-nodename"):
+                    app_accepted = app_lines[i]
+    ctx.log("application oracle done", app_tally)
     if accepted_doc is None:
         # no well-formed document was accepted at all: the comparison is vacuous unless violations explain it
         if not ctx.violations:
@@ -364,11 +579,22 @@ def run(ctx):
         raise Inconclusive("no well-formed document reached the getter comparison")
 
     # ---- 5. binding self-test: corrupted records must be rejected, and only those
-    st = None
+    st = st_fut = None
     if accepted_doc is not None:
-        st = selftest(ctx, accepted_doc, next((l for l in fuzz_lines if '"class":"panic"' not in l), None))
+        st_fut = pool.submit(selftest, ctx, accepted_doc, next((l for l in fuzz_lines if '"class":"panic"' not in l), None))
 
-    ctx.log("self-test done", st)
+    app_st = None
+    if app_accepted is not None:
+        app_st = app_selftest(ctx, app_accepted)
+        a0 = json.loads(app_accepted)
+        samples.append({"kind": "accepted application record", "text": a0["text"], "host": a0["host"],
+                        "NodeName": a0["obs"]["svr.NodeName"], "LocalIP": a0["obs"]["svr.LocalIP"]})
+    elif not ctx.violations:
+        raise Inconclusive("no application document with a configured local ip other than the host address and no "
+                           "node_name was accepted: the dependent default was not exercised")
+    if st_fut is not None:
+        st = st_fut.result()
+    ctx.log("self-test done", st, app_st)
     # ---- 6. the model-only results
     mc = {}
     mstates = mtrans = 0
@@ -388,8 +614,8 @@ def run(ctx):
     ctx.coverage = {
         "states": mstates + gstates + ostates,
         "transitions": mtrans + gtrans + otrans,
-        "traces_validated_against_impl": len(rec_lines) + len(fuzz_lines),
-        "samples": samples[:4],
+        "traces_validated_against_impl": len(rec_lines) + len(fuzz_lines) + len(app_lines),
+        "samples": samples[:6],
         "model_checking": mc,
         "mc_distinct_states": mstates,
         "mc_invariants": ["Agree (stack machine = declarative characterisation: tree, key/sub-domain/line listings, fault)",
@@ -405,8 +631,18 @@ def run(ctx):
         "observations_not_judged": observations,
         "random_inputs": {"n": nfuzz, "by_generator_and_outcome": fuzz_tally},
         "selftest_corrupted_records": st,
-        "evaluations": len(rec_lines) + len(fuzz_lines),
-        "distinct_nontrivial": len(nontrivial),
+        "second_observation": "every document parsed successfully is asked everything twice; in between the driver sorts / "
+                              "rewrites / reuses / clears every listing and map it received (and the buffer or file it had "
+                              "handed to the parser)",
+        "application_documents": app_corpus,
+        "application_records_by_outcome": app_tally,
+        "application_documents_by_class": app_by_mode,
+        "application_settings_compared_per_document": "53 settings of the server / client configuration + the adapters",
+        "application_host_addresses": sorted(h for h in app_hosts if h),
+        "application_transport_configuration_observed": hooked,
+        "selftest_corrupted_application_records": app_st,
+        "evaluations": len(rec_lines) + len(fuzz_lines) + len(app_lines),
+        "distinct_nontrivial": len(nontrivial) + app_nontrivial,
         "rule": "documents enumerated by TLC from Gen_Conf (exhaustive bounded shards, seeded samples of the larger ones in the "
                 "quick tier, simulation for long documents), rendered with seeded blanks/line ends; distinct_nontrivial = distinct "
                 "documents with at least one binding whose every getter answer was compared with the reference",
